@@ -2,8 +2,8 @@
 From Coq Require Import List ZArith String.
 Local Close Scope string_scope.
 Require Import Avro.Model.Base Avro.Model.Prim Avro.Model.Schema Avro.Model.Container.
-Require Import Avro.Model.Writer.
-Require Import Avro.Proofs.ContainerP Avro.Proofs.FileP Avro.Proofs.FuelP Avro.Proofs.HeaderGenP.
+Require Import Avro.Model.Writer Avro.Model.Compress.
+Require Import Avro.Proofs.CompressP Avro.Proofs.ContainerP Avro.Proofs.FileP Avro.Proofs.FuelP Avro.Proofs.HeaderGenP.
 Import ListNotations.
 Open Scope list_scope.
 Open Scope Z_scope.
@@ -161,3 +161,85 @@ Proof.
   split; [|vm_compute; reflexivity].
   repeat constructor; try discriminate; unfold len, two63; cbn; lia.
 Qed.
+
+(* ---- the snappy codec of file.go (Model/Compress.v): framing, length guard, CRC-32 ----
+   raw_dec / raw_len / raw_enc stand for golang/snappy's Decode / DecodedLen / Encode and
+   are arbitrary functions; the CRC-32 is the model's own bit-by-bit definition, compared
+   with hash/crc32 on every block of every snappy file the correspondence evaluates. *)
+
+(* data comes back from a stored block exactly when: it holds at least the four checksum
+   bytes, the declared length is plausible, the raw decoder accepts the body, and the
+   trailer is the big-endian CRC-32 of what the raw decoder returned *)
+Theorem C07_snappy_accepts_exactly : forall raw_dec raw_len c u,
+  snappy_decompress raw_dec raw_len c = Some u <->
+  4 <= len c /\ (exists n, raw_len (snappy_body c) = Some n /\ n <= 32 * len c) /\
+  raw_dec (snappy_body c) = Some u /\ be32_dec (snappy_tail c) = crc32 u.
+Proof. exact snappy_accepts_iff. Qed.
+Print Assumptions C07_snappy_accepts_exactly.
+
+(* "a snappy block whose checksum does not match": refused *)
+Theorem C07_snappy_checksum_mismatch : forall raw_dec raw_len c u,
+  raw_dec (snappy_body c) = Some u -> be32_dec (snappy_tail c) <> crc32 u ->
+  snappy_decompress raw_dec raw_len c = None.
+Proof. exact snappy_checksum_mismatch. Qed.
+Print Assumptions C07_snappy_checksum_mismatch.
+
+(* every byte and bit position of the checksum as a corruption site, inside a file: after any
+   valid blocks, an acceptable block whose four trailer bytes were replaced by any others
+   delivers none of its records and fails the read *)
+Theorem C07_snappy_checksum_damage_in_file : forall raw_dec raw_len read_record cb sync, len sync = 16 ->
+  forall bl count e t t' u rest fuel idx,
+  vbs_ok (snappy_decompress raw_dec raw_len) read_record cb idx bl -> int64_ok count -> len (e ++ t') < two63 ->
+  length t = 4%nat -> length t' = 4%nat -> bytes_ok t -> bytes_ok t' -> t' <> t ->
+  snappy_decompress raw_dec raw_len (e ++ t) = Some u ->
+  read_blocks (snappy_decompress raw_dec raw_len) read_record cb (length bl + S fuel)%nat sync idx
+    (concat (map (vb_bytes sync) bl) ++ enc_varint count ++ enc_varint (len (e ++ t')) ++ (e ++ t') ++ rest)
+  = ((idx + total bl)%nat, FErr).
+Proof. exact snappy_file_checksum_damage. Qed.
+Print Assumptions C07_snappy_checksum_damage_in_file.
+
+(* a snappy block shorter than its checksum *)
+Theorem C07_snappy_short_block_in_file : forall raw_dec raw_len read_record cb sync, len sync = 16 ->
+  forall bl count raw rest fuel idx,
+  vbs_ok (snappy_decompress raw_dec raw_len) read_record cb idx bl -> int64_ok count -> len raw < 4 ->
+  read_blocks (snappy_decompress raw_dec raw_len) read_record cb (length bl + S fuel)%nat sync idx
+    (concat (map (vb_bytes sync) bl) ++ enc_varint count ++ enc_varint (len raw) ++ raw ++ rest)
+  = ((idx + total bl)%nat, FErr).
+Proof. exact snappy_file_short_block. Qed.
+Print Assumptions C07_snappy_short_block_in_file.
+
+(* C07_written_file_reads_back with the library's own snappy codec: the premise "the
+   decompressor inverts the compressor" is proved (snappy_roundtrip), what is left assumed
+   speaks about golang/snappy alone: Decode inverts Encode, DecodedLen is the length of what
+   Decode returns, Encode never shrinks below 1/32 *)
+Theorem C07_snappy_file_reads_back : forall raw_enc raw_dec raw_len,
+  (forall b u, raw_dec b = Some u -> raw_len b = Some (len u)) ->
+  (forall u, raw_dec (raw_enc u) = Some u) ->
+  (forall u, len u <= 32 * (len (raw_enc u) + 4)) ->
+  forall read_record sync, len sync = 16 ->
+  forall schema_json codec_name size ops fuel,
+  len schema_json < two63 -> len codec_name < two63 ->
+  Forall (rec_decodes read_record) (recs_of ops) ->
+  Forall (group_small (snappy_compress raw_enc)) (fst (blocks_spec size [] (ops ++ [OpFlush]))) ->
+  (length (fst (blocks_spec size [] (ops ++ [OpFlush]))) < fuel)%nat ->
+  exists body,
+    read_header (concat (file_chunks (snappy_compress raw_enc) schema_json codec_name sync size (ops ++ [OpFlush])))
+      = Some ({| h_meta := written_meta schema_json codec_name; h_sync := sync |}, body) /\
+    read_blocks (snappy_decompress raw_dec raw_len) read_record (fun _ => None) fuel sync 0 body
+      = (length (recs_of ops), FOk).
+Proof. exact snappy_file_roundtrip. Qed.
+Print Assumptions C07_snappy_file_reads_back.
+
+(* non-vacuity: a stored-literal "raw codec" (one tag byte in front of the data) satisfies the
+   three premises on this input; the block it frames is accepted, and refused with one checksum
+   bit flipped, with one data byte changed, and when cut below four bytes *)
+Example C07_snappy_ex :
+  let raw_enc := fun u : bytes => 0 :: u in
+  let raw_dec := fun c : bytes => match c with 0 :: u => Some u | _ => None end in
+  let raw_len := fun c : bytes => match c with 0 :: u => Some (len u) | _ => None end in
+  let blk := snappy_compress raw_enc [1; 2; 3] in
+  snappy_decompress raw_dec raw_len blk = Some [1; 2; 3] /\
+  snappy_decompress raw_dec raw_len (firstn 7 blk ++ [Z.lxor (nth 7 blk 0) 1]) = None /\
+  snappy_decompress raw_dec raw_len (firstn 2 blk ++ [9] ++ skipn 3 blk) = None /\
+  snappy_decompress raw_dec raw_len (firstn 3 blk) = None.
+Proof. cbv zeta. split; [|split; [|split]]; vm_compute; reflexivity. Qed.
